@@ -144,10 +144,11 @@ CLAIMED = {
             "Proof: for both methods (`eigh`: scipy.linalg.eigh(Gt, G0); `cholesky`: L L^T = G0, eigenvectors of L^-1 Gt L^-T mapped back by "
             "L^-T) and with or without a precomputed inverse Cholesky factor, the rows of the returned array satisfy the generalised "
             "eigen-equation in matrix form G(t) V = G(t0) V Lambda with Lambda the eigenvalues in DESCENDING order (state 0 = largest), for "
-            "symmetric positive definite G(t0); any dimension (the ring is abstract).",
+            "symmetric positive definite G(t0); any dimension (the ring is abstract). Corr.prune: every entry of the pruned matrix is "
+            "(v_i, G(t) v_j) for ALL i, j (no symmetry assumed; T in {1, 2}, Ntrunc = 2 unrolled).",
             "DESIGN.md section 6 C16",
             "Assumed: numpy / scipy return eigenvalues in ascending order and satisfy the defining equations of the decompositions. NOT "
-            "decided: Corr.GEVP's time-slice plumbing (t0, ts, sort modes, None timeslices), _sort_vectors, Eigenvalue / projected / prune, "
+            "decided: Corr.GEVP's time-slice plumbing (t0, ts, sort modes, None timeslices), _sort_vectors, Eigenvalue / projected, "
             "the Obs-valued branch, exact-exponential spectra, matrix_pencil_method (numerical statements outside the reach of contracts)."),
     "C17": ("symbolic execution of the configuration-selection statements of read_rwms (statement slice, filter / map summaries, ghost induction) and of check_idl + z3; native execution of the same slice",
             "Proof for read_rwms (one replica, one factor; lengths, configuration numbers, r_start / r_stop / r_step symbolic): the stored "
